@@ -257,3 +257,4 @@ def r10_serde_dispatch(ctx):
 
 
 RULES.append(r10_serde_dispatch)
+RULES.append(lazy("C04", "r8_undecodable_output", "a value that could not be decoded is not the value sequential evaluation gives"))
